@@ -19,6 +19,66 @@ func init() {
 	verifrt.Register("Harness_C16_BurnEncode", Harness_C16_BurnEncode)
 	verifrt.Register("Harness_C16_BurnBadField", Harness_C16_BurnBadField)
 	verifrt.Register("Harness_C16_RemoteTokenPadded", Harness_C16_RemoteTokenPadded)
+	verifrt.Register("Harness_C16_DecodeIntoUsedReceiver", Harness_C16_DecodeIntoUsedReceiver)
+	verifrt.Register("Harness_C16_EncodeDerivedLeavesSourceIntact", Harness_C16_EncodeDerivedLeavesSourceIntact)
+}
+
+// decoding is a function of the input bytes alone: a receiver that already holds arbitrary field
+// values (a reused variable) ends up exactly as a fresh one
+func Harness_C16_DecodeIntoUsedReceiver() {
+	bz := verifrt.NondetBytes("bz", 120)
+	verifrt.Assume(len(bz) >= 116)
+	m := &Message{Version: verifrt.NondetU32("old_version"), Nonce: verifrt.NondetU64("old_nonce"),
+		Sender: verifrt.NondetBytesOrNil("old_sender", 32), Recipient: verifrt.NondetBytesOrNil("old_recipient", 32),
+		DestinationCaller: verifrt.NondetBytesOrNil("old_caller", 32), MessageBody: verifrt.NondetBytesOrNil("old_body", 6)}
+	r, err := m.Parse(bz)
+	verifrt.Cover("decoded")
+	verifrt.Assert("C16/message/used-receiver-accepted", err == nil)
+	if err != nil {
+		return
+	}
+	verifrt.Assert("C16/message/used-receiver-decode-vs-reference", verifrt.All(
+		r.Version == verifrt.RefU32(bz, 0), r.SourceDomain == verifrt.RefU32(bz, 4), r.DestinationDomain == verifrt.RefU32(bz, 8),
+		r.Nonce == verifrt.RefU64(bz, 12), bytes.Equal(r.Sender, bz[20:52]), bytes.Equal(r.Recipient, bz[52:84]),
+		bytes.Equal(r.DestinationCaller, bz[84:116]), bytes.Equal(r.MessageBody, bz[116:])))
+	bb := verifrt.NondetBytes("burn_bz", 132)
+	verifrt.Assume(len(bb) == 132)
+	b := &BurnMessage{Version: verifrt.NondetU32("old_burn_version"), BurnToken: verifrt.NondetBytesOrNil("old_token", 32),
+		MintRecipient: verifrt.NondetBytesOrNil("old_mint_recipient", 32), Amount: verifrt.NondetIntNonNil("old_amount"),
+		MessageSender: verifrt.NondetBytesOrNil("old_burn_sender", 32)}
+	rb, err2 := b.Parse(bb)
+	verifrt.Assert("C16/burn/used-receiver-accepted", err2 == nil)
+	if err2 != nil {
+		return
+	}
+	verifrt.Assert("C16/burn/used-receiver-decode-vs-reference", verifrt.All(
+		rb.Version == verifrt.RefU32(bb, 0), bytes.Equal(rb.BurnToken, bb[4:36]), bytes.Equal(rb.MintRecipient, bb[36:68]),
+		verifrt.IntEq(rb.Amount, verifrt.IntFromBytes32(bb[68:100])), bytes.Equal(rb.MessageSender, bb[100:132])))
+}
+
+// encoding a message built from the fields of a decoded one (as the replacement path does: original
+// sender, new recipient / caller) gives the reference bytes and leaves the wire bytes it was decoded
+// from, and therefore the decoded original, untouched
+func Harness_C16_EncodeDerivedLeavesSourceIntact() {
+	bz := verifrt.NondetBytes("bz", 120)
+	verifrt.Assume(len(bz) >= 116)
+	saved := append([]byte{}, bz...)
+	m, err := new(Message).Parse(bz)
+	if err != nil {
+		return
+	}
+	rcpt, caller := verifrt.NondetBytes("new_recipient", 32), verifrt.NondetBytes("new_caller", 32)
+	verifrt.Assume(verifrt.All(len(rcpt) == 32, len(caller) == 32))
+	d := Message{Version: m.Version, SourceDomain: m.SourceDomain, DestinationDomain: m.DestinationDomain, Nonce: m.Nonce,
+		Sender: m.Sender, Recipient: rcpt, DestinationCaller: caller, MessageBody: m.MessageBody}
+	out, err2 := d.Bytes()
+	verifrt.Cover("encoded")
+	verifrt.Assert("C16/message/encode-derived-ok", err2 == nil)
+	exp := append([]byte{}, saved...)
+	copy(exp[52:84], rcpt)
+	copy(exp[84:116], caller)
+	verifrt.Assert("C16/message/encode-derived-vs-reference", bytes.Equal(out, exp))
+	verifrt.Assert("C16/message/encoding-leaves-decoded-source-intact", bytes.Equal(bz, saved))
 }
 
 func c16MsgCap() int {
